@@ -4,7 +4,10 @@ Product mode: Bezier library x rotations x query-point families (far, near the
 curve, on the curve, centre of curvature, beyond either end along the tangent,
 lattice around the box), and paths.  Reference: dense evaluation (4097 points)
 of the real point() refined by golden-section search around every local
-extremum of the sample.
+extremum of the sample (paths), and - for single segments - the EXACT extremes:
+|B(t)-z|^2 as a polynomial over Q of the float control points, its critical
+points in [0,1] isolated by Sturm sequences (mc/exact.py), so no extremum can
+hide between samples.
 """
 import itertools
 import math
@@ -22,7 +25,8 @@ ID = 'C13'
 LEVEL = 'exploration'
 RULE = ('Bezier library x rotations x query point families; paths x query points; one case per (curve, query point); '
         'non-trivial = the minimum or the maximum is attained at an interior parameter; distinct = distinct (curve, point)')
-ASSUMPTIONS = ['reference extremes: dense sample of the real point() + golden-section refinement; tolerance 1e-6*size for the extreme values (roots from numpy.roots are ~1e-8 accurate and the distance to an on-curve point has a kink), 1e-9*size for d == |point(t) - z|']
+ASSUMPTIONS = ['reference extremes are exact: |B(t)-z|^2 over Q of the float control points, critical points isolated by Sturm sequences (per segment for paths)',
+               'tolerance 1e-6*size for the extreme values (roots from numpy.roots are ~1e-8 accurate and the distance to an on-curve point has a kink), 1e-9*size for d == |point(t) - z|']
 
 ROTS = [0, 37, 90]
 GOLD = (math.sqrt(5) - 1) / 2
@@ -64,7 +68,24 @@ def reference(seg, z, n=4097):
     return best_min, best_max
 
 
-def query_points(seg):
+def exact_extremes(seg, z):
+    """((dmin, tmin), (dmax, tmax)) of |seg.point(t) - z| over [0,1], decided over Q"""
+    from fractions import Fraction
+    from mc.exact import F, QPoly, bezier_to_qpoly
+    bp = [complex(q) for q in seg.bpoints()]
+    X = bezier_to_qpoly([F(q.real) for q in bp]) - QPoly([F(complex(z).real)])
+    Y = bezier_to_qpoly([F(q.imag) for q in bp]) - QPoly([F(complex(z).imag)])
+    D = X * X + Y * Y
+    dD = D.deriv()
+    cands = [Fraction(0), Fraction(1)]
+    if not dD.is_zero() and dD.deg() >= 1:
+        cands += [(lo + hi) / 2 for lo, hi in dD.isolate(0, 1)]
+    vals = [(D(t), t) for t in cands]
+    lo_, hi_ = min(vals), max(vals)
+    return (math.sqrt(float(lo_[0])), float(lo_[1])), (math.sqrt(float(hi_[0])), float(hi_[1]))
+
+
+def query_points(seg, lattice_n=4):
     size = seg_size(seg)
     pts = []
     c = seg.point(0.5)
@@ -80,16 +101,29 @@ def query_points(seg):
             nrm = 1j * tan / abs(tan)
             pts.append(('near', p + 1e-3 * size * nrm))
             pts.append(('near', p - 1e-3 * size * nrm))
-    # centre of curvature at t = 1/2 from finite differences
-    h = 1e-3
-    p0, p1, p2 = seg.point(0.5 - h), seg.point(0.5), seg.point(0.5 + h)
-    d1 = (p2 - p0) / (2 * h)
-    d2 = (p2 - 2 * p1 + p0) / (h * h)
-    cr = d1.real * d2.imag - d1.imag * d2.real
-    if abs(cr) > 1e-9 * abs(d1) ** 3 and abs(d1) > 0:
-        R = abs(d1) ** 3 / cr
-        if abs(R) < 1e3 * size:
-            pts.append(('centre_of_curvature', p1 + 1j * d1 / abs(d1) * R))
+    # the evolute: at z = B(t0) + k*rho*n (n towards the centre of curvature, rho the radius of curvature)
+    # B(t0) stops being a local minimum of the distance as k passes 1 - the set of critical points
+    # changes there.  t0 includes both END points (beyond an end's centre of curvature the end is not the
+    # nearest point although the curve leaves it at a right angle to the direction of z).
+    bp = [complex(q) for q in seg.bpoints()]
+    nb = len(bp) - 1
+    if nb >= 2:
+        from mc.refgeom import de_casteljau
+        d1c = [nb * (bp[i + 1] - bp[i]) for i in range(nb)]
+        d2c = [(nb - 1) * (d1c[i + 1] - d1c[i]) for i in range(nb - 1)]
+        for t0 in (0.0, 0.25, 0.5, 0.75, 1.0):
+            d1, d2 = de_casteljau(d1c, t0), de_casteljau(d2c, t0)
+            cr = d1.real * d2.imag - d1.imag * d2.real
+            if abs(d1) == 0 or abs(cr) <= 1e-9 * abs(d1) ** 3 / max(size, 1e-300):
+                continue
+            R = abs(d1) ** 3 / cr               # signed: positive = centre to the left
+            if abs(R) > 1e3 * size:
+                continue
+            p0 = de_casteljau(bp, t0)
+            for k in (0.5, 0.9, 1.0, 1.1, 2.0, 5.0):
+                if abs(R) * k > 20 * size:
+                    continue
+                pts.append(('centre_of_curvature' if k == 1.0 and t0 == 0.5 else 'evolute', p0 + 1j * d1 / abs(d1) * R * k))
     for t, sgn in ((0.0, -1), (1.0, 1)):
         a, b = (0.0, 1e-6) if t == 0 else (1 - 1e-6, 1.0)
         tan = seg.point(b) - seg.point(a)
@@ -97,23 +131,26 @@ def query_points(seg):
             pts.append(('beyond_end', seg.point(t) + sgn * tan / abs(tan) * 0.5 * size))
     xs = [complex(p).real for p in seg.bpoints()]
     ys = [complex(p).imag for p in seg.bpoints()]
-    for i in range(4):
-        for j in range(4):
-            pts.append(('lattice', complex(min(xs) - 0.2 * size + i * (max(xs) - min(xs) + 0.4 * size) / 3 + 0.013,
-                                           min(ys) - 0.2 * size + j * (max(ys) - min(ys) + 0.4 * size) / 3 - 0.007)))
+    m = lattice_n - 1
+    for i in range(lattice_n):
+        for j in range(lattice_n):
+            pts.append(('lattice', complex(min(xs) - 0.2 * size + i * (max(xs) - min(xs) + 0.4 * size) / m + 0.013 * size / 5,
+                                           min(ys) - 0.2 * size + j * (max(ys) - min(ys) + 0.4 * size) / m - 0.007 * size / 5)))
     return pts
 
 
-def check_segment(name, rot, acc, only=None):
-    seg = AB.make(name, rot=rot)
+def check_segment(name, rot, acc, only=None, scale=1.0, shift=0j, lattice_n=4):
+    seg = AB.make(name, scale, shift=shift, rot=rot)
     size = seg_size(seg)
     kind = type(seg).__name__[0]
-    tol = 1e-9 * size
-    for fam, z in query_points(seg):
+    tol = 1e-9 * (size + abs(shift))
+    for fam, z in query_points(seg, lattice_n):
         case = {'what': 'segment', 'shape': name, 'rot': rot, 'z': core.jz(z), 'family': fam}
+        if scale != 1.0 or shift != 0 or lattice_n != 4:
+            case.update(scale=scale, shift=core.jz(shift), lattice_n=lattice_n)
         if only and case['z'] != only:
             continue
-        (dmin, tmin), (dmax, tmax) = reference(seg, z)
+        (dmin, tmin), (dmax, tmax) = exact_extremes(seg, z)
         interior = (1e-6 < tmin < 1 - 1e-6) or (1e-6 < tmax < 1 - 1e-6)
         acc.case(case, cls='%s/%s' % (kind, fam), nontrivial=interior)
         r = outcome(lambda: seg.radialrange(z))
@@ -141,6 +178,9 @@ def check_segment(name, rot, acc, only=None):
             acc.violation('not_global_minimum', sig, case, observed=[gmin, gtmin], expected=[dmin, tmin])
         if gmax < dmax - 1e-6 * size:
             acc.violation('not_global_maximum', sig, case, observed=[gmax, gtmax], expected=[dmax, tmax])
+        # and nothing better than the true extremes can be reported either
+        if gmin < dmin - tol - 1e-12 * size or gmax > dmax + tol + 1e-12 * size:
+            acc.violation('beyond_true_extreme', sig, case, observed=[gmin, gmax], expected=[dmin, dmax])
 
 
 PATHS = [('L_diagonal', 'Q_generic', 'C_arch'), ('C_sshape', 'C_loop'), ('Q_foldback_real', 'L_vertical'), ('C_cusp',),
@@ -162,7 +202,7 @@ def check_path(word, acc, only=None):
         case = {'what': 'path', 'word': list(word), 'z': core.jz(z)}
         if only and case['z'] != only:
             continue
-        refs = [reference(s, z, 1025) for s in segs]
+        refs = [exact_extremes(s, z) for s in segs]
         dmin = min(r[0][0] for r in refs)
         dmax = max(r[1][0] for r in refs)
         acc.case(case, cls='path', nontrivial=len(segs) > 1)
@@ -189,40 +229,105 @@ def check_path(word, acc, only=None):
                 acc.violation('not_global_maximum', sig, case, observed=[gmax, gtmax, imax], expected=dmax)
 
 
+def check_long(n, kinds, acc, only=None):
+    """paths of n segments for every n in a list bracketing the powers of two (a pruned or vectorised
+    reduction has a size threshold): Path-level answers against the reduction over the segments' own
+    radialrange (decided above), and against the exact extremes for n <= 9"""
+    from mc import longpaths as LP
+    segs = LP.zigzag(n, kinds, amp=1.0 + 0.1 * (n % 3), step=1.0)
+    p = Path(*segs)
+    size = n * 1.0 + 2.0
+    mid = segs[n // 2]
+    zs = [complex(-5.0, 0.3), complex(n + 5.0, -0.4), complex(n / 2.0 + 0.21, 40.0), complex(n / 2.0 - 0.17, -35.0),
+          mid.point(0.5) + 0.05j, mid.point(0.5) - 0.3j, segs[0].point(0.3) + 0.02, segs[-1].point(0.8) - 0.02j]
+    # next to INTERIOR control points: a control point is near z although the curve is not
+    for s_ in (segs[0], mid, segs[-1]):
+        bp = list(s_.bpoints())
+        for q in bp[1:-1]:
+            zs.append(q + 0.01 - 0.02j)
+    for zi, z in enumerate(zs):
+        case = {'what': 'long', 'n': n, 'kinds': kinds, 'z': core.jz(z)}
+        if only and case['z'] != only:
+            continue
+        acc.case(case, cls='long/%s' % ('ge32' if n >= 32 else 'lt32'), nontrivial=n > 1)
+        (wmin, wtmin, wimin), (wmax, wtmax, wimax) = LP.reduce_radialrange(segs, z)
+        if n <= 9:
+            ex = [exact_extremes(s_, z) for s_ in segs]
+            wmin = min(wmin, min(e[0][0] for e in ex) + 1e-6 * size)
+            wmax = max(wmax, max(e[1][0] for e in ex) - 1e-6 * size)
+        for fn_name, fn in (('radialrange', lambda: p.radialrange(z)),
+                            ('closest_farthest', lambda: (closest_point_in_path(z, p), farthest_point_in_path(z, p)))):
+            r = outcome(fn)
+            sig = {'kind': 'P', 'fn': fn_name, 'long': True, 'n_ge_32': n >= 32}
+            if r[0] != 'ok':
+                acc.violation('radialrange_raises', dict(sig, exc=r[1]), case, observed=r)
+                continue
+            try:
+                (gmin, gtmin, imin), (gmax, gtmax, imax) = r[1]
+                ok = abs(abs(segs[imin].point(gtmin) - z) - gmin) <= 1e-9 * size and \
+                    abs(abs(segs[imax].point(gtmax) - z) - gmax) <= 1e-9 * size and 0 <= gtmin <= 1 and 0 <= gtmax <= 1
+            except Exception:
+                acc.violation('malformed_result', sig, case, observed=repr(r[1]))
+                continue
+            if not ok:
+                acc.violation('distance_not_distance_of_returned_parameter', sig, case, observed=repr(r[1]))
+                continue
+            if gmin > wmin + 1e-9 * size:
+                acc.violation('not_global_minimum', sig, case, observed=[gmin, gtmin, imin], expected=[wmin, wtmin, wimin])
+            if gmax < wmax - 1e-9 * size:
+                acc.violation('not_global_maximum', sig, case, observed=[gmax, gtmax, imax], expected=[wmax, wtmax, wimax])
+
+
 def shards(tier, seed):
     rots = ROTS if tier == 'quick' else ROTS + [180, 211, 300]
     out = [{'what': 'segment', 'shape': n, 'rot': r} for n in list(AB.LINES) + list(AB.QUADS) + list(AB.CUBICS) for r in rots]
     out += [{'what': 'path', 'word': list(w)} for w in PATHS]
+    from mc import longpaths as LP
+    out += [{'what': 'long', 'n': n, 'kinds': k} for n in (LP.SIZES_QUICK if tier == 'quick' else LP.SIZES_THOROUGH)
+            for k in (('L', 'LQC') if tier == 'quick' else ('L', 'Q', 'C', 'LQC', 'CL'))]
+    if tier == 'thorough':
+        # finer lattice of query points, other scales, far from the origin
+        out += [{'what': 'segment', 'shape': n, 'rot': r, 'scale': sc, 'shift': sh, 'lattice_n': 9}
+                for n in list(AB.LINES) + list(AB.QUADS) + list(AB.CUBICS) for r in (0, 37, 211)
+                for sc, sh in ((1.0, 0j), (1e-3, 0j), (1e4, 0j), (1.0, 3.0e3 - 2.0e3j))]
     return out
 
 
 def run_shard(desc, tier, seed):
     acc = core.Acc()
     if desc['what'] == 'segment':
-        check_segment(desc['shape'], desc['rot'], acc)
+        check_segment(desc['shape'], desc['rot'], acc, scale=desc.get('scale', 1.0), shift=complex(desc.get('shift', 0j)),
+                      lattice_n=desc.get('lattice_n', 4))
+    elif desc['what'] == 'long':
+        check_long(desc['n'], desc['kinds'], acc)
     else:
         check_path(tuple(desc['word']), acc)
     return acc
 
 
 def expected_classes(tier):
-    out = ['path']
+    out = ['path', 'long/ge32', 'long/lt32']
     for k in 'LQC':
         out += ['%s/far' % k, '%s/on_curve' % k, '%s/near' % k, '%s/beyond_end' % k, '%s/lattice' % k]
-    out += ['Q/centre_of_curvature', 'C/centre_of_curvature']
+    out += ['Q/centre_of_curvature', 'C/centre_of_curvature', 'Q/evolute', 'C/evolute']
     return out
 
 
 def space(tier, seed):
     return {'shapes': list(AB.LINES) + list(AB.QUADS) + list(AB.CUBICS), 'rotations': ROTS if tier == 'quick' else ROTS + [180, 211, 300],
-            'query_families': ['far x4', 'on_curve x6', 'near (+-1e-3 size along the normal) x12', 'centre_of_curvature', 'beyond_end x2', 'lattice 4x4'],
-            'paths': [list(w) for w in PATHS]}
+            'query_families': ['far x4', 'on_curve x6', 'near (+-1e-3 size along the normal) x12', 'centre_of_curvature', 'evolute: B(t0) + k*rho*n for t0 in {0,1/4,1/2,3/4,1}, k in {0.5,0.9,1,1.1,2,5}', 'beyond_end x2', 'lattice 4x4'],
+            'paths': [list(w) for w in PATHS],
+            'long_paths': 'zigzag paths of n segments (kinds L / LQC; thorough also Q, C, CL) for n in mc.longpaths.SIZES_* (every power of two up to 256 (512) and its neighbours); Path-level answers against the reduction over the segments',
+            'thorough_only': 'all shapes x rot {0,37,211} x (scale, shift) in {(1,0),(1e-3,0),(1e4,0),(1,3e3-2e3j)} with a 9x9 lattice' if tier == 'thorough' else None}
 
 
 def replay(case):
     acc = core.ReplayAcc()
-    if case['what'] == 'segment':
-        check_segment(case['shape'], case['rot'], acc, only=case['z'])
+    if case['what'] == 'long':
+        check_long(case['n'], case['kinds'], acc, only=case['z'])
+    elif case['what'] == 'segment':
+        check_segment(case['shape'], case['rot'], acc, only=case['z'], scale=case.get('scale', 1.0),
+                      shift=complex(*case['shift']) if 'shift' in case else 0j, lattice_n=case.get('lattice_n', 4))
     else:
         check_path(tuple(case['word']), acc, only=case['z'])
     return acc.vlist
